@@ -849,19 +849,19 @@ Section Step.
   Lemma forallb_in {A} (f : A -> bool) l x : forallb f l = true -> In x l -> f x = true.
   Proof. intros H Hx. apply (proj1 (forallb_forall f l) H x Hx). Qed.
 
-  Lemma mod_late_image a c seid cpf cp cf cq up uf uq rp rf rq s0 w6 rest a' c' o :
+  Lemma mod_late_image a c seid cpf cp cf cq up uf uq rp rf rq s0 w6 a' c' o :
     find_session seid (c_sessions c) = Some s0 ->
     mod_loops a c s0 seid cp cf cq up uf uq = (w6, 0%nat) ->
     late_ok a seid s0 w6 cp cf cq up uf uq rp rf rq = true ->
     handle_mod burst a c seid cpf cp cf cq up uf uq rp rf rq = Done (a', c', o) ->
-    is_image (a_tables a) (session_cmds burst s0 ++ rest) ->
-    NoDup (map tg (session_cmds burst s0)) -> disjoint_from (session_cmds burst s0) rest ->
     exists s', c_sessions c' = replace_session s' (c_sessions c) /\ s_lseid s' = s_lseid s0 /\
-      a_tables a' = apply_cmds (o_cmds o) (a_tables a) /\ (exists r, o_reply o = Some (RMod r CAUSE_OK)) /\
-      (NoDup (map tg (session_cmds burst s')) -> disjoint_from (session_cmds burst s') rest ->
-       is_image (a_tables a') (session_cmds burst s' ++ rest)).
+      a_tables a' = apply_cmds (o_cmds o) (a_tables a) /\ o_reply o = Some (RMod (new_rseid cpf s0) CAUSE_OK) /\
+      (forall rest, is_image (a_tables a) (session_cmds burst s0 ++ rest) ->
+         NoDup (map tg (session_cmds burst s0)) -> disjoint_from (session_cmds burst s0) rest ->
+         NoDup (map tg (session_cmds burst s')) -> disjoint_from (session_cmds burst s') rest ->
+         is_image (a_tables a') (session_cmds burst s' ++ rest)).
   Proof.
-    intros Hf HL HG H Hi Hn0 Hd0. unfold late_ok in HG.
+    intros Hf HL HG H. unfold late_ok in HG.
     apply andb_true_iff in HG; destruct HG as [HG G12]. apply andb_true_iff in HG; destruct HG as [HG G11].
     apply andb_true_iff in HG; destruct HG as [HG G10]. apply andb_true_iff in HG; destruct HG as [HG G9].
     apply andb_true_iff in HG; destruct HG as [HG G8]. apply andb_true_iff in HG; destruct HG as [HG G7].
@@ -878,8 +878,8 @@ Section Step.
     inversion H; subst a' c' o; clear H.
     exists (Sess (s_lseid s0) (new_rseid cpf s0) wp3 wf3 wq3).
     split; [reflexivity|]. split; [reflexivity|]. split; [cbn [a_tables o_cmds]; rewrite apply_cmds_app; reflexivity|].
-    split; [eexists; reflexivity|].
-    intros Hn' Hd'. cbn [a_tables]. unfold session_cmds in *. cbn [s_pdrs s_fars s_qers] in *.
+    split; [reflexivity|].
+    intros rest Hi Hn0 Hd0 Hn' Hd'. cbn [a_tables]. unfold session_cmds in *. cbn [s_pdrs s_fars s_qers] in *.
     set (P0 := view (s_pdrs s0)) in *. set (F0 := view (s_fars s0)) in *. set (Q0 := view (s_qers s0)) in *.
     pose proof (remove_p_perm _ _ _ _ _ _ _ R1) as PP. pose proof (remove_f_perm _ _ _ _ _ R2) as PF. pose proof (remove_q_perm _ _ _ _ _ R3) as PQ.
     rewrite app_nil_r in PP, PF, PQ.
